@@ -35,6 +35,8 @@ TYPES = ['p2pkh', 'p2sh', 'p2wpkh', 'p2wsh', 'p2tr']
 PLEN = {'p2pkh': 20, 'p2sh': 20, 'p2wpkh': 20, 'p2wsh': 32, 'p2tr': 32}
 FWD_ROUTES = ['address', 'address_obj', 'address_parsed', 'public_hash', 'lock_script']
 KEY_ROUTES = ['hdkey', 'hdkey_public', 'hdkey_address_obj', 'key_address_obj', 'public_key']
+PARSE_APIS = ['output_parse', 'tx_parse', 'tx_parse_witness_form', 'tx_parse_hex', 'tx_parse_hex_witness_form',
+              'tx_parse_bytesio', 'tx_parse_bytesio_witness_form']
 HEXCHARS = frozenset(b'0123456789abcdefABCDEF')
 VALUE = 100000
 
@@ -79,6 +81,28 @@ def _share(kind, a, b):
 def _make_output(api, net, **kw):
     """Build the output through Output(...) or Transaction(network).add_output(...)."""
     lib = _lib()
+    if api in PARSE_APIS:
+        # the output as it comes out of a parsed transaction: the script is all the library gets
+        if set(kw) != {'lock_script'}:
+            raise ValueError('parsed outputs are built from a locking script only')
+        from io import BytesIO
+        from ref import wire
+        script = bytes(kw['lock_script'])
+        if api == 'output_parse':
+            return lib.tr.Output.parse(BytesIO(wire.TxOut(VALUE, script).serialize()), network=net)
+        segwit_form = api.endswith('_witness_form')
+        vin = wire.TxIn(bytes(range(32)), 1, b'' if segwit_form else b'\x01\x51', 0xfffffffd,
+                        [b'\x30\x06\x02\x01\x01\x02\x01\x01\x01', b'\x02' + bytes(range(1, 33))] if segwit_form else None)
+        other = wire.TxOut(VALUE + 1, b'\x76\xa9\x14' + bytes(range(20)) + b'\x88\xac')
+        tx = wire.Tx(2, [vin], [other, wire.TxOut(VALUE, script)], 0)
+        raw = tx.serialize()
+        if api.startswith('tx_parse_hex'):
+            t = lib.tr.Transaction.parse_hex(raw.hex(), strict=False, network=net)
+        elif api.startswith('tx_parse_bytesio'):
+            t = lib.tr.Transaction.parse_bytesio(BytesIO(raw), strict=False, network=net)
+        else:
+            t = lib.tr.Transaction.parse(raw, strict=False, network=net)
+        return t.outputs[1]
     if api == 'add_output':
         for k in ('script_type', 'witver', 'witness_type'):
             if k in kw:
@@ -432,7 +456,7 @@ def matrix_items():
         for kind in TYPES:
             for cname, p in payload_classes(PLEN[kind]):
                 for route in FWD_ROUTES:
-                    for api in ('Output', 'add_output'):
+                    for api in ('Output', 'add_output') + (tuple(PARSE_APIS) if route == 'lock_script' else ()):
                         if api == 'add_output' and route == 'public_hash':
                             continue            # add_output has no script_type argument
                         items.append(('fwd.%s.%s' % (route, cname),
@@ -521,6 +545,10 @@ def run(ctx):
         'kind': st.just('fwd'), 'route': st.sampled_from(FWD_ROUTES), 'api': st.sampled_from(['Output', 'add_output']),
         'net': gen.networks(), 'type': st.just(kind), 'payload': payload_for(kind)})).map(
         lambda c: dict(c, api='Output') if c['route'] == 'public_hash' else c)
+    fwd_parsed = st.sampled_from(TYPES).flatmap(lambda kind: st.fixed_dictionaries({
+        'kind': st.just('fwd'), 'route': st.just('lock_script'), 'api': st.sampled_from(PARSE_APIS),
+        'net': gen.networks(), 'type': st.just(kind), 'payload': payload_for(kind)}))
+    fwd = st.one_of(fwd, fwd, fwd, fwd_parsed)
     keyr = st.fixed_dictionaries({
         'kind': st.just('fwd'), 'route': st.sampled_from(['hdkey', 'hdkey_public', 'hdkey_address_obj', 'key_address_obj', 'public_key']),
         'api': st.sampled_from(['Output', 'add_output']), 'net': gen.networks(),
